@@ -7,6 +7,8 @@
 #include <sys/wait.h>
 #include <unistd.h>
 #include <fcntl.h>
+#include <sys/uio.h>
+#include <sys/syscall.h>
 #include <dlfcn.h>
 #include <cstdarg>
 #include <cstdio>
@@ -44,6 +46,8 @@ struct Th {
   const void* mtx = nullptr;   // mutex to re-acquire after a cond wait
   int join_target = -1;
   bool woken = false;
+  std::vector<uint32_t> vc;    // vector clock (happens-before tracking for the shared-access hook)
+  const void* cw = nullptr;    // condition variable this thread is waiting on (stays set while a signal handler runs on top of the wait)
   long spur_step = -1;         // planned spurious wake-up (global step) of the current cond wait
   void* (*fn)(void*) = nullptr;
   void* arg = nullptr;
@@ -84,6 +88,13 @@ std::vector<Event> evlog;
 std::vector<uint32_t> decs;
 std::map<const void*, int> mowner;
 std::map<const void*, int> mdepth;   // extra acquisitions of recursive mutexes
+// ---- happens-before race detection for accesses reported through tfel_verif_shared_access (guarded hook in /repo)
+std::map<const void*, std::vector<uint32_t>> mclock;   // clock published by the last release of each mutex
+struct Shadow { int wtid = -1; uint32_t wclk = 0; std::map<int, uint32_t> reads; };
+std::map<const void*, Shadow> shadow;
+void vc_join(std::vector<uint32_t>& a, const std::vector<uint32_t>& b) { if (a.size() < b.size()) a.resize(b.size(), 0); for (size_t i = 0; i < b.size(); ++i) if (b[i] > a[i]) a[i] = b[i]; }
+uint32_t vc_get(const std::vector<uint32_t>& a, int i) { return size_t(i) < a.size() ? a[size_t(i)] : 0; }
+void vc_tick(Th* t) { if (t->vc.size() <= size_t(t->id)) t->vc.resize(size_t(t->id) + 1, 0); t->vc[size_t(t->id)]++; }
 bool is_recursive(pthread_mutex_t* m) { return (m->__data.__kind & 3) == PTHREAD_MUTEX_RECURSIVE_NP; }   // glibc layout
 std::vector<std::pair<std::string, long>> ctrs;
 vsim::fatal_cb on_fatal = nullptr;
@@ -194,7 +205,7 @@ bool schedulable(Th* t) {
 struct Cand { int kind; int a; };
 
 void apply_planned_faults() {
-  for (auto t : ths) if (t->state == B_COND && !t->woken && t->spur_step >= 0 && steps >= t->spur_step) { t->woken = true; t->spur_step = -1; vsim::count("spurious_wakeup_fired"); vsim::event(101, t->id, 0); }
+  for (auto t : ths) if (t->cw && !t->woken && t->spur_step >= 0 && steps >= t->spur_step) { t->woken = true; t->spur_step = -1; vsim::count("spurious_wakeup_fired"); vsim::event(101, t->id, 0); }
 #ifdef VSIM_PROC
   for (auto& f : cfg.faults) if (f.kind == vsim::F_STRAY_SIGCHLD && f.a == steps) { vsim::count("stray_sigchld_fired"); vsim::event(102, 0, 0); raise_sigchld(-1); }
 #endif
@@ -256,7 +267,7 @@ void schedule() {
       if (k.fate.kind == 2) { pipes[fds[k.ffd_w].pipe].buf += "NO"; close_fd(k.ffd_w); close_fd(k.cfd_r); child_zombie(k); }
       else {
         close_fd(k.ffd_w); close_fd(k.cfd_r); k.state = 2; k.age = 0;
-        if (k.out_fd >= 0 && !k.fate.output.empty()) { const char* p = k.fate.output.data(); size_t left = k.fate.output.size(); while (left) { ssize_t w = __real_write(k.out_fd, p, left); if (w <= 0) break; p += w; left -= size_t(w); } }
+        if (k.out_fd >= 0 && !k.fate.output.empty()) { const char* p = k.fate.output.data(); size_t left = k.fate.output.size(); while (left) { ssize_t w = syscall(SYS_write, k.out_fd, p, left); if (w <= 0) break; p += w; left -= size_t(w); } }
       }
       vsim::event(103, c.a, k.fate.kind);
       continue;
@@ -284,12 +295,14 @@ void run_pending_handler() {
     for (int s = 1; s < 64; ++s) if (sigismember(&sa.sa_mask, s) == 1) m |= (1ull << s);
     self->sigmask |= m; self->in_handler++;
     int saved = self->state; self->state = RUN;
+    const void* s_obj = self->obj; const void* s_mtx = self->mtx; int s_join = self->join_target, s_wpid = self->wait_pid, s_rfd = self->read_fd;
     vsim::count("handler_runs");
     for (auto& kv : mowner) if (kv.second == self->id) { vsim::count("handler_ran_in_lock_holder"); break; }
     vsim::event(104, self->id, saved);
     sa.sa_handler(SIGCHLD);
     vsim::event(105, self->id, 0);
-    self->state = saved; self->in_handler--; self->sigmask = old;
+    self->state = saved; self->obj = s_obj; self->mtx = s_mtx; self->join_target = s_join; self->wait_pid = s_wpid; self->read_fd = s_rfd;
+    self->in_handler--; self->sigmask = old;
     if (sig_pending_proc && can_take_signal(self)) { sig_pending_proc = false; self->deliver = true; }
   }
 }
@@ -381,7 +394,7 @@ uint32_t choose(uint32_t n, int kind) { return decide(n, kind, uint32_t(rng.next
 void begin(const Config& c) {
   for (auto c : carriers) if (!c->th || c->th->state == FIN) { c->idle = true; c->th = nullptr; }
   for (auto t : ths) delete t;
-  ths.clear(); mowner.clear(); mdepth.clear(); evlog.clear(); decs.clear(); ctrs.clear();
+  ths.clear(); mowner.clear(); mdepth.clear(); mclock.clear(); shadow.clear(); evlog.clear(); decs.clear(); ctrs.clear();
   cfg = c; rng.seed(c.seed); replay_pos = 0; steps = 0; g_seq = 0; cond_wait_calls = 0; last_run_tid = 0;
   hashv = 1469598103934665603ull; shash = 1469598103934665603ull;
 #ifdef VSIM_PROC
@@ -414,6 +427,20 @@ int fake_fds_open() { int n = 0; for (auto& kv : fds) { bool childs = false; for
 
 extern "C" {
 
+// -------------------------------------------------------------------------- shared-access hook (TFEL_VERIF builds of /repo)
+void tfel_verif_shared_access(const void* p, int is_write) {
+  if (!SIM_ON) return;
+  vsim::count(is_write ? "shared_writes_checked" : "shared_reads_checked");
+  Shadow& sh = shadow[p];
+  auto hb = [](int tid, uint32_t clk) { return tid < 0 || tid == self->id || clk <= vc_get(self->vc, tid); };
+  char b[400];
+  if (!hb(sh.wtid, sh.wclk)) { snprintf(b, sizeof b, "%s of shared state %s by T%d is not ordered after the write by T%d (no common lock, no create/join edge)", is_write ? "write" : "read", vsim::mutex_name(p), self->id, sh.wtid); fatal("data-race", b); }
+  if (is_write) {
+    for (auto& r : sh.reads) if (!hb(r.first, r.second)) { snprintf(b, sizeof b, "write of shared state %s by T%d is not ordered after the read by T%d", vsim::mutex_name(p), self->id, r.first); fatal("data-race", b); }
+    vc_tick(self); sh.wtid = self->id; sh.wclk = vc_get(self->vc, self->id); sh.reads.clear();
+  } else { vc_tick(self); sh.reads[self->id] = vc_get(self->vc, self->id); }
+}
+
 // -------------------------------------------------------------------------- threads
 int pthread_mutex_lock(pthread_mutex_t* m) {
   if (!SIM_ON) { static auto f = real<int (*)(pthread_mutex_t*)>("pthread_mutex_lock"); return f(m); }
@@ -432,6 +459,7 @@ int pthread_mutex_lock(pthread_mutex_t* m) {
   }
   if (it != mowner.end()) { self->state = B_MUTEX; self->obj = m; vsim::count("mutex_contended"); block(false); self->state = RUN; }
   mowner[m] = self->id;
+  { auto q = mclock.find(m); if (q != mclock.end()) vc_join(self->vc, q->second); }
   vsim::event(3, (long)self->id, 0);
   ypoint();   // ... and right after acquisition: a thread can be preempted or take a signal while holding a lock
   return 0;
@@ -440,7 +468,7 @@ int pthread_mutex_trylock(pthread_mutex_t* m) {
   if (!SIM_ON) { static auto f = real<int (*)(pthread_mutex_t*)>("pthread_mutex_trylock"); return f(m); }
   ypoint();
   { auto it = mowner.find(m); if (it != mowner.end()) { if (it->second == self->id && is_recursive(m)) { mdepth[m]++; return 0; } return EBUSY; } }
-  mowner[m] = self->id; ypoint(); return 0;
+  mowner[m] = self->id; { auto q = mclock.find(m); if (q != mclock.end()) vc_join(self->vc, q->second); } ypoint(); return 0;
 }
 int pthread_mutex_unlock(pthread_mutex_t* m) {
   if (!SIM_ON) { static auto f = real<int (*)(pthread_mutex_t*)>("pthread_mutex_unlock"); return f(m); }
@@ -448,6 +476,7 @@ int pthread_mutex_unlock(pthread_mutex_t* m) {
   if (it != mowner.end() && it->second == self->id) {
     auto d = mdepth.find(m);
     if (d != mdepth.end() && d->second > 0) { d->second--; return 0; }
+    vc_tick(self); mclock[m] = self->vc;
     mowner.erase(it);
   }
   vsim::event(4, (long)self->id, 0);
@@ -461,12 +490,14 @@ int pthread_mutex_destroy(pthread_mutex_t* m) {
 static int sim_cond_wait(pthread_cond_t* c, pthread_mutex_t* m) {
   ypoint();
   long k = cond_wait_calls++;
+  vc_tick(self); mclock[m] = self->vc;
   mowner.erase(m);
-  self->state = B_COND; self->obj = c; self->mtx = m; self->woken = false; self->spur_step = -1;
+  self->state = B_COND; self->obj = c; self->mtx = m; self->woken = false; self->spur_step = -1; self->cw = c;
   for (auto& f : cfg.faults) if (f.kind == vsim::F_SPURIOUS && f.a == k) self->spur_step = steps + 1 + f.b;
   vsim::event(5, (long)self->id, 0);
   block(false);
-  mowner[m] = self->id; self->state = RUN; self->spur_step = -1;
+  mowner[m] = self->id; self->state = RUN; self->spur_step = -1; self->cw = nullptr;
+  { auto q = mclock.find(m); if (q != mclock.end()) vc_join(self->vc, q->second); }
   vsim::event(6, (long)self->id, 0);
   ypoint();
   return 0;
@@ -486,7 +517,7 @@ int pthread_cond_clockwait(pthread_cond_t* c, pthread_mutex_t* m, clockid_t ck, 
 int pthread_cond_signal(pthread_cond_t* c) {
   if (!SIM_ON) { static auto f = real<int (*)(pthread_cond_t*)>("pthread_cond_signal"); return f(c); }
   ypoint();
-  std::vector<Th*> w; for (auto t : ths) if (t->state == B_COND && t->obj == c && !t->woken) w.push_back(t);
+  std::vector<Th*> w; for (auto t : ths) if (t->cw == c && !t->woken) w.push_back(t);
   if (!w.empty()) { Th* t = w[vsim::choose(uint32_t(w.size()), vsim::D_NOTIFY)]; t->woken = true; vsim::event(7, t->id, (long)w.size()); if (w.size() > 1) vsim::count("notify_one_with_choice"); }
   else vsim::event(7, -1, 0);
   ypoint();
@@ -495,7 +526,7 @@ int pthread_cond_signal(pthread_cond_t* c) {
 int pthread_cond_broadcast(pthread_cond_t* c) {
   if (!SIM_ON) { static auto f = real<int (*)(pthread_cond_t*)>("pthread_cond_broadcast"); return f(c); }
   ypoint();
-  long n = 0; for (auto t : ths) if (t->state == B_COND && t->obj == c && !t->woken) { t->woken = true; ++n; }
+  long n = 0; for (auto t : ths) if (t->cw == c && !t->woken) { t->woken = true; ++n; }
   vsim::event(8, n, 0);
   ypoint();
   return 0;
@@ -517,6 +548,7 @@ int pthread_create(pthread_t* pt, const pthread_attr_t* a, void* (*fn)(void*), v
     if (r != 0) { delete c; delete t; return r; }
     carriers.push_back(c);
   }
+  vc_tick(self); t->vc = self->vc;
   c->idle = false; c->th = t; t->car = c; t->real = c->real;
   ths.push_back(t);
   *pt = c->real;
@@ -536,7 +568,7 @@ int pthread_join(pthread_t pt, void** ret) {
   block(false);
   self->state = RUN;
   vsim::event(2, self->id, target);
-  Th* t = ths[target]; t->joined = true;
+  Th* t = ths[target]; t->joined = true; vc_join(self->vc, t->vc);
   if (ret) *ret = t->retval;
   t->car->idle = true; t->car->th = nullptr;   // the carrier can now serve another simulated thread
   return 0;
@@ -568,8 +600,14 @@ pid_t __wrap_fork(void) {
   ypoint();
   return c.pid;
 }
+static ssize_t raw_write(int fd, const void* b, size_t n) { return syscall(SYS_write, fd, b, n); }   // never re-enters the interposed write()
+// writes to real files (the shared tfel-check.log ...) are scheduling points: a flush in the middle of a block can be overtaken
+static void file_write_point(int fd) { if (SIM_ON && fd >= 3 && fd < 10000) { vsim::count("file_write_scheduling_points"); ypoint(); } }
+// reached from shared libraries (libstdc++'s basic_filebuf), which --wrap does not cover
+ssize_t write(int fd, const void* b, size_t n) { file_write_point(fd); return raw_write(fd, b, n); }
+ssize_t writev(int fd, const struct iovec* v, int c) { static auto f = real<ssize_t (*)(int, const struct iovec*, int)>("writev"); file_write_point(fd); return f(fd, v, c); }
 ssize_t __wrap_write(int fd, const void* b, size_t n) {
-  if (!SIM_ON || fd < 10000) return __real_write(fd, b, n);
+  if (!SIM_ON || fd < 10000) { file_write_point(fd); return raw_write(fd, b, n); }
   ypoint();
   auto it = fds.find(fd); if (it == fds.end()) { errno = EBADF; return -1; }
   int pid_ = it->second.pipe;
